@@ -481,6 +481,10 @@ func genStress(rng *hx.Rng, kind string, scale int) string {
 		return genStack(rng, kind)
 	case "evictmax":
 		return fmt.Sprintf("stress evictmax %d %d %d", rng.Range(100, 300), rng.Range(2, 6), seed)
+	case "onupdate":
+		return genOnUpdate(rng)
+	case "ctorrace":
+		return fmt.Sprintf("stress ctorrace %s %d %d", hx.Pick(rng, []string{"lin", "sum", "firstnz"}), rng.Range(300, 1500), seed)
 	}
 
 	return fmt.Sprintf("stress wg %d %d %d", rng.Range(2, 4), it(20, 300), seed)
@@ -537,6 +541,8 @@ func main() {
 		// DerivedVariable: inputs that hold values already, initial value, Unsubscribe twice, DeriveValueFrom and its teardown
 		{"dv new lin 7 1,0,4096", "dv set 1 5", "dv derive", "dv set 2 -65537", "dv set 0 1", "dv unsub", "dv set 1 9", "dv unsub", "dv teardown", "dv set 0 3"},
 		{"dv new firstnz -3 0", "dv derive", "dv set 0 0", "dv set 0 1099511627776", "dv teardown", "dv set 0 2"},
+		// the deriving variable holds 7 and the derived one the zero value: InheritFrom must copy the zero value too
+		{"dv new sum 0 0,0", "dv derive 7", "dv set 1 3", "dv toggle 0 2", "dv reset 0", "dv default 1 9", "dv default 0 9", "dv compute 1 -3"},
 		// slots below 0 registered before the first eviction, and float slots between two integers (f32q / f64q count
 		// quarters: 6 = 1.5, 8 = 2.0): the probing loop of the unrepaired evict never reached them
 		{"ev new i8", "ev event -3", "ev event 2", "ev evict -1", "ev event -3", "ev evict -1", "ev evict 5", "ev event -128"},
@@ -562,6 +568,11 @@ func main() {
 		{"stress basewrite single compute 1 1", "stress basewrite all replace 1 2", "stress basewrite apply single 1 3", "stress basewrite replace all 1 4",
 			"stress basewrite compute apply 1 5", "stress basewrite single apply 0 1", "stress basewrite all single 0 2", "stress basewrite apply compute 0 3",
 			"stress basewrite replace single 0 4", "stress basewrite compute all 0 5"},
+		// a writer inside the OnUpdate window (registration + snapshot done, initial invocation not yet) of every subscribing call
+		{"stress onupdate dvar lin 1,5 1 0:3", "stress onupdate dvar lin 1,5 2 1:0", "stress onupdate dvar lin 1,5 2 0:4", "stress onupdate dvar lin 1,2,3 2 1:7,2:0",
+			"stress onupdate dvar sum 0,0,0,1 4 3:0", "stress onupdate inherit 7 1 0", "stress onupdate inherit 0 0 3", "stress onupdate counter even 1 0",
+			"stress onupdate counter nonzero 0 2", "stress onupdate dset 1 0 del 3", "stress onupdate dset 2 1 del 3", "stress onupdate dset 1 0 add 3",
+			"stress onupdate sub 1 0 del 3", "stress onupdate sub 2 1 del 3", "stress onupdate sub 2 1 add 9", "stress onupdate sub 1 1 add 9"},
 		// evictors released together with different slots: the last evicted slot must be the maximum
 		{"stress evictmax 3000 4 1", "stress evictmax 1500 2 2", "stress evictmax 1000 8 3"},
 	}
@@ -593,10 +604,10 @@ func main() {
 			runCase(r, uint64(n), []string{fmt.Sprintf("stress sizes %s %d %d", c, n, r.Seed+uint64(i))})
 		}
 	}
-	kinds := []string{"dvar", "dvar", "inherit", "dset", "sub", "counter", "sorted", "sorted", "sortedrace", "evict", "evictsame", "wg", "dvzero", "dvzero", "evictmax", "stack", "stack", "stackvar", "stacksorted"}
+	kinds := []string{"dvar", "dvar", "inherit", "dset", "sub", "counter", "sorted", "sorted", "sortedrace", "evict", "evictsame", "wg", "dvzero", "dvzero", "evictmax", "stack", "stack", "stackvar", "stacksorted", "onupdate", "ctorrace"}
 	nstress := 150 * r.Scale
 	if r.Scale > 1 {
-		nstress *= 4 // thorough: spend the budget on interleavings
+		nstress *= 2 // thorough: spend the budget on interleavings
 	}
 	for i := 0; i < nstress; i++ {
 		if i%10 == 0 && i < 600 { // forced schedules wait for a writer that (on correct code) is blocked: few of them
@@ -606,6 +617,9 @@ func main() {
 			runCase(r, sub, []string{genStress(rng, "basewrite", r.Scale)})
 		}
 		for _, k := range kinds {
+			if k == "ctorrace" && r.Scale > 1 && i%4 != 0 {
+				continue // many short rounds per scenario: a quarter of them in the thorough tier
+			}
 			rng, sub := r.Rng.Fork()
 			runCase(r, sub, []string{genStress(rng, k, r.Scale)})
 		}
